@@ -68,8 +68,50 @@ func gen(t *rapid.T) Case {
 		}
 		c.Args = append(c.Args, a)
 	}
-	k := rapid.IntRange(0, 14).Draw(t, "kind")
+	k := rapid.IntRange(0, 17).Draw(t, "kind")
 	switch {
+	case k == 17:
+		// the TYPES of the bundled packages (the in-process reference shares the package tables with the
+		// command, so the expected output is given by construction)
+		c.Kind = "explicit-stdout"
+		ps := [][2]string{
+			{"http = import(\"net/http\")\nc = make(http.Cookie)\nc.Name = \"n1\"\nprintln(c.Name)\n", "n1\n"},
+			{"http = import(\"net/http\")\nc = make(http.Client)\nprintln(c.Timeout)\n", "0s\n"},
+			{"u = import(\"net/url\")\nv = make(u.Values)\nv.Set(\"a\", \"1\")\nprintln(v.Get(\"a\"))\n", "1\n"},
+			{"u = import(\"net/url\")\nx = make(u.URL)\nx.Host = \"h\"\nprintln(x.Host)\n", "h\n"},
+			{"t = import(\"time\")\nd = make(t.Duration)\nprintln(d)\n", "0s\n"},
+			{"s = import(\"sync\")\nw = make(s.WaitGroup)\nprintln(1)\n", "1\n"},
+			{"s = import(\"sort\")\nx = make(s.StringSlice)\nprintln(len(x))\n", "0\n"},
+		}
+		pk := ps[rapid.IntRange(0, len(ps)-1).Draw(t, "pkgtype")]
+		c.Src, c.Expect = pk[0], pk[1]
+	case k == 15:
+		// sources that are unusual as TEXTS: a very long line, a leading byte order mark, error messages
+		// with per cent signs (the diagnostic line is the message, not a format)
+		c.Kind = "odd-sources"
+		switch rapid.IntRange(0, 3).Draw(t, "odd") {
+		case 0:
+			c.Mode = "file"
+			n := rapid.SampledFrom([]int{65530, 65536, 65537, 70000, 140000}).Draw(t, "linelen")
+			c.Src = "s = \"" + strings.Repeat("a", n) + "\"\nprintln(len(s))\nprintln(\"end\")\n"
+		case 1:
+			c.Mode = "file"
+			c.Src = rapid.SampledFrom([]string{"\xEF\xBB\xBF", "\xEF\xBB\xBF\xEF\xBB\xBF", "\xFE\xFF", "\xFF\xFE"}).Draw(t, "bom") + "println(1)\nprintln(\"end\")\n"
+		default:
+			txt := rapid.SampledFrom([]string{"100%", "%d items", "50%s", "%", "a%%b%", "%v%", "rate 5 %", "%!s(MISSING)"}).Draw(t, "pct")
+			c.Src = "println(\"a\")\nprintln(\"b\")\nthrow \"" + txt + "\"\n"
+			if rapid.Bool().Draw(t, "viaerr") {
+				c.Src = "println(\"a\")\nprintln(\"b\")\nx = nosuch_" + strings.ReplaceAll(strings.ReplaceAll(txt, "%", "p"), " ", "_") + "\n"
+			}
+		}
+	case k == 16:
+		// the script lives in a sub-directory and is named by a relative path: relative paths inside the
+		// script still resolve against the directory the command was started in
+		c.Kind = "relative-file"
+		c.Mode = "file"
+		c.Inc = "println(\"inc\")\n"
+		c.Src = "os = import(\"os\")\nwd, err = os.Getwd()\nprintln(wd)\nload(\"inc.ank\")\nprintln(\"end\")\n"
+		c.Expect = "@DIR@\ninc\nend\n"
 	case k == 12:
 		// builtins that reach back into the script's own scope: defined(name), load(file)
 		c.Kind = "scope-builtins"
@@ -297,7 +339,18 @@ func oracle(c Case, o *h.Obs) *h.Fail {
 	if c.Inc != "" {
 		os.WriteFile(filepath.Join(dir, "inc.ank"), []byte(c.Inc), 0o644)
 	}
-	if c.Kind == "explicit-stdout" {
+	cmdDir := ""
+	if c.Kind == "relative-file" {
+		os.Mkdir(filepath.Join(dir, "sub"), 0o755)
+		os.WriteFile(filepath.Join(dir, "sub", "s.ank"), []byte(src), 0o644)
+		argv = append([]string{filepath.Join("sub", "s.ank")}, c.Args...)
+		cmdDir = dir
+		real, err := filepath.EvalSymlinks(dir)
+		if err != nil {
+			real = dir
+		}
+		want = inproc{out: strings.ReplaceAll(c.Expect, "@DIR@", real)}
+	} else if c.Kind == "explicit-stdout" {
 		f := filepath.Join(dir, "s.ank")
 		os.WriteFile(f, []byte(src), 0o644)
 		if c.Mode == "e" {
@@ -351,6 +404,7 @@ func oracle(c Case, o *h.Obs) *h.Fail {
 	defer cancel()
 	cmd := exec.CommandContext(ctx, bin, argv...)
 	cmd.Stdin = strings.NewReader("")
+	cmd.Dir = cmdDir
 	var stdout, stderr bytes.Buffer
 	cmd.Stdout, cmd.Stderr = &stdout, &stderr
 	runErr := cmd.Run()
